@@ -274,4 +274,127 @@ func TestC16(t *testing.T) {
 		rec.NonTrivial(drv.HashJSON(c), func() interface{} { return c })
 	})
 
+	// echo replies from a tracked station in a process that has used Ping before (the ping machinery is process-wide):
+	// the earlier pings are long over, so a reply with whatever identifier is an ordinary frame of a tracked host
+	type c16Echo struct {
+		Pings int    `json:"pings"` // pings issued (and timed out or refused) before the measurement
+		V6    bool   `json:"v6"`
+		Type  byte   `json:"type"`
+		ID    uint16 `json:"id"`
+	}
+	drv.Prop(t, rec, "echo-after-ping", 200, 3000, func(t *rapid.T) c16Echo {
+		v6 := rapid.Bool().Draw(t, "v6")
+		typ := rapid.SampledFrom([]byte{0, 0, 8}).Draw(t, "type")
+		if v6 {
+			typ = rapid.SampledFrom([]byte{129, 129, 128}).Draw(t, "type6")
+		}
+		return c16Echo{Pings: rapid.IntRange(0, 2).Draw(t, "pings"), V6: v6, Type: typ, ID: rapid.Uint16().Draw(t, "id")}
+	}, func(tb drv.TB, c c16Echo) {
+		rec.Eval()
+		drv.Begin("C16", "echo-after-ping", 'J', mustJSON(c), 30*time.Second)
+		defer drv.End()
+		s, _ := newSession(defaultNIC())
+		defer closeSession(s)
+		for i := 0; i < c.Pings; i++ {
+			if i%2 == 0 {
+				s.Ping(packet.Addr{MAC: hw(w.Clients[1]), IP: netip.MustParseAddr("192.168.0.6")}, 5*time.Millisecond)
+			} else {
+				s.Ping6(packet.Addr{MAC: hw(w.HostMAC), IP: w.HostLLA}, packet.Addr{MAC: hw(w.Clients[1]), IP: netip.MustParseAddr("fe80::bb")}, 5*time.Millisecond)
+			}
+		}
+		fb := echoFrame(w, c.V6, c.Type, c.ID)
+		buf := make([]byte, len(fb), packet.EthMaxSize)
+		copy(buf, fb)
+		run := func() { s.Parse(buf) }
+		run()
+		run() // tracked and online now
+		measure := func() float64 { return testing.AllocsPerRun(20, run) }
+		if a := measure(); a != 0 {
+			if a2, a3 := measure(), measure(); a2 != 0 && a3 != 0 {
+				rec.Violation(tb, "echo-after-ping", "c16-allocs-echo", c, "an ICMP echo message (type %d, identifier %d) from a tracked station costs %.0f/%.0f/%.0f allocations per Parse after %d earlier pings of this session (pings issued in this process so far: at least that many)", c.Type, c.ID, a, a2, a3, c.Pings)
+				return
+			}
+		}
+		rec.Class(fmt.Sprintf("echo type %d after >= %d pings", c.Type, c.Pings))
+		if c.Pings > 0 {
+			rec.NonTrivial(drv.HashJSON(c), func() interface{} { return c })
+		}
+	})
+
+	// several tracked stations taking turns through a receive ring of 1..3 buffers (a read loop hands Parse whichever
+	// buffer the next frame landed in): every station is tracked after the warm-up, so every later frame is steady state
+	type c16Ring struct {
+		Bufs  int   `json:"bufs"`
+		Order []int `json:"order"` // station per frame
+		V6    []int `json:"v6"`    // stations that also speak from a link-local address
+	}
+	drv.Prop(t, rec, "receive-ring", 300, 6000, func(t *rapid.T) c16Ring {
+		c := c16Ring{Bufs: rapid.IntRange(1, 3).Draw(t, "bufs")}
+		for i := rapid.IntRange(4, 24).Draw(t, "nframes"); i > 0; i-- {
+			c.Order = append(c.Order, rapid.IntRange(0, 3).Draw(t, "station"))
+		}
+		c.V6 = rapid.SliceOfNDistinct(rapid.IntRange(0, 3), 0, 2, func(i int) int { return i }).Draw(t, "v6")
+		return c
+	}, func(tb drv.TB, c c16Ring) {
+		rec.Eval()
+		drv.Begin("C16", "receive-ring", 'J', mustJSON(c), 30*time.Second)
+		defer drv.End()
+		s, _ := newSession(defaultNIC())
+		defer closeSession(s)
+		v6 := map[int]bool{}
+		for _, k := range c.V6 {
+			v6[k] = true
+		}
+		var frames [][]byte
+		for i, st := range c.Order {
+			mac := w.Clients[st%4]
+			if v6[st] && i%2 == 1 {
+				src := netip.MustParseAddr("fe80::70").As16()
+				src[14] = byte(st)
+				frames = append(frames, ref.Eth(w.RouterMAC, mac, 0x86dd, ref.IP6(ref.IP6Hdr{PayloadLen: -1, Next: 17, HopLimit: 64, Src: src, Dst: netip.MustParseAddr("ff02::fb").As16()}, ref.UDP(40000, 9999, -1, 0, []byte("x")))))
+			} else {
+				frames = append(frames, ref.Eth(w.RouterMAC, mac, 0x0800, ref.IP4(ref.IP4Hdr{TotalLen: -1, TTL: 64, Proto: 17, Checksum: -1, Src: [4]byte{192, 168, 0, byte(70 + st)}, Dst: [4]byte{192, 168, 0, 11}}, ref.UDP(40000, 9999, -1, 0, []byte("x")))))
+			}
+		}
+		ring := make([][]byte, c.Bufs)
+		for i := range ring {
+			ring[i] = make([]byte, packet.EthMaxSize)
+		}
+		next := 0
+		pass := func() {
+			for _, f := range frames {
+				b := ring[next%len(ring)]
+				next++
+				s.Parse(b[:copy(b, f)])
+			}
+		}
+		pass()
+		pass() // every station (and address) is tracked and online now
+		before := map[int]*packet.Host{}
+		for _, st := range c.Order {
+			before[st] = s.FindIP(netip.AddrFrom4([4]byte{192, 168, 0, byte(70 + st)}))
+		}
+		measure := func() float64 { return testing.AllocsPerRun(10, pass) }
+		if a := measure(); a != 0 {
+			if a2, a3 := measure(), measure(); a2 != 0 && a3 != 0 {
+				rec.Violation(tb, "receive-ring", "c16-allocs-ring", c, "tracked stations taking turns through a ring of %d receive buffers cost %.0f/%.0f/%.0f allocations per pass of %d frames", c.Bufs, a, a2, a3, len(frames))
+				return
+			}
+		}
+		for st, h := range before {
+			if h != nil && s.FindIP(netip.AddrFrom4([4]byte{192, 168, 0, byte(70 + st)})) != h {
+				rec.Violation(tb, "receive-ring", "c16-tracked-host-recreated", c, "station %d's host record was replaced while it kept sending from the same address through a ring of %d buffers", st, c.Bufs)
+				return
+			}
+		}
+		rec.Class(fmt.Sprintf("receive ring of %d buffers", c.Bufs))
+		distinct := map[int]bool{}
+		for _, st := range c.Order {
+			distinct[st] = true
+		}
+		if len(distinct) >= 2 {
+			rec.NonTrivial(drv.HashJSON(c), func() interface{} { return c })
+		}
+	})
+
 }
